@@ -644,6 +644,31 @@ class CallMixin:
     # -- sets
     def set_method(self, s, attr, f, node, st):
         args, kw = self.args_of(node, st)
+        if attr in ("union", "difference", "intersection") and len(args) == 1 and isinstance(args[0], VSet):
+            o = args[0]
+            if hasattr(s, "lit_items") and hasattr(o, "lit_items"):
+                def same(a, b):
+                    return z3.is_true(z3.simplify(eq(a, b)))
+                def known_diff(a, b):
+                    return z3.is_false(z3.simplify(eq(a, b)))
+                if attr == "union":
+                    items = list(s.lit_items) + [x for x in o.lit_items if not any(same(x, y) for y in s.lit_items)]
+                elif attr == "difference":
+                    if not all(same(x, y) or known_diff(x, y) for x in s.lit_items for y in o.lit_items):
+                        self.unsupported(node, "difference of literal sets with symbolic members")
+                    items = [x for x in s.lit_items if not any(same(x, y) for y in o.lit_items)]
+                else:
+                    if not all(same(x, y) or known_diff(x, y) for x in s.lit_items for y in o.lit_items):
+                        self.unsupported(node, "intersection of literal sets with symbolic members")
+                    items = [x for x in s.lit_items if any(same(x, y) for y in o.lit_items)]
+                kty = s.kty
+                m = z3.K(sort_of(kty), z3.BoolVal(False))
+                for it in items:
+                    m = z3.Store(m, pack(coerce(it, kty)), z3.BoolVal(True))
+                r = VSet(kty, m, z3.IntVal(len(items)))
+                r.lit_items = items
+                return r
+            self.unsupported(node, "set.%s on non-literal sets" % attr)
         if attr == "add":
             x = args[0]
             if isinstance(x, VOpt) and not getattr(s, "empty_literal", False) and not isinstance(s.kty, TOpt):
